@@ -71,8 +71,10 @@ static int state_is(int k, int minborn, const char *when)
 	}
 	for(int i = 0; i < s->n; ++i) {
 		if(SHD.b[i].id != s->b[i].id || SHD.b[i].req != s->b[i].req || (s->b[i].born < minborn && SHD.b[i].p != s->b[i].p)) {
-			sx_violation("rollback after fossil collection: live block set differs", "%s event %d block %d; %s", when, k, i,
-			    as_trace);
+			sx_violation("rollback after fossil collection: live block set differs",
+			    "%s event %d block %d: now #%d req %zu at %p born %d, first run #%d req %zu at %p born %d (minborn %d); %s", when, k, i,
+			    SHD.b[i].id, SHD.b[i].req, (void *)SHD.b[i].p, SHD.b[i].born, s->b[i].id, s->b[i].req, (void *)s->b[i].p, s->b[i].born,
+			    minborn, as_trace);
 			return 0;
 		}
 		if(memcmp(SHD.b[i].p, s->b[i].copy, s->b[i].req)) {
@@ -273,7 +275,9 @@ static int rollback_to_event(int k)
 	/* checkpoints after the restored one are gone */
 	for(int e = r + 1; e <= N; ++e)
 		ckpt_at[e] = 0;
-	return state_is(k, E[r].pos, "rolled back to after");
+	/* blocks born at events <= r existed at the restored checkpoint and must keep their address; blocks (re)allocated by the
+	 * coast forward may land in an arena created after that checkpoint (same relaxation as s_ckpt, DESIGN.md section 4) */
+	return state_is(k, r + 1, "rolled back to after");
 }
 
 static void scenario(unsigned c, double g, int q, double g2)
